@@ -4,6 +4,7 @@ import (
 	"fmt"
 	"html/template"
 	"strings"
+	"time"
 )
 
 // ---- C17: partial / layout / contentFor / block helpers = inline rendering -------------
@@ -38,7 +39,7 @@ func init() {
 	register("C17", func(e *Env) {
 		renderPrelude()
 		e.perShard = 40
-		e.rep.Rule = "generated bodies (text, output tags of strings / HTML / numbers, loops, conditionals, let, nested partials to depth 3) x data maps x {no layout, layout, nested layout} x {content type unset, text/html, application/javascript} x partial names with .js / .html / no extension; contentFor/contentOf with 0..3 uses, data, default blocks and missing names; block helpers calling their block once, twice, or with their own context; each compared with rendering the same source inline in the equivalent scope (a second run of the real engine), and re-evaluated by the model; distinct by template"
+		e.rep.Rule = "generated bodies (text, output tags of strings / HTML / numbers, loops, conditionals, let, nested partials to depth 3) x data maps x {no layout, layout, nested layout} x {content type unset, text/html, application/javascript} x partial names with .js / .html / no extension; contentFor/contentOf with 0..3 uses, data, default blocks and missing names; block helpers calling their block once, twice, or with their own context; time values whose printed form depends on TIME_FORMAT in the scope of the block / partial (Go-only); each compared with rendering the same source inline in the equivalent scope (a second run of the real engine), and re-evaluated by the model; distinct by template"
 		bodies := []string{"plain <b>text</b>", "[<%= who %>]", "<%= s %>|<%= h %>|<%= n + 1 %>", "<%= for (x) in xs { %>(<%= x %>)<% } %>", "<%= if (t) { %>yes <%= who %><% } else { %>no<% } %>",
 			"<% let q = who + \"!\" %><%= q %>", "<%= raw(who) %>", "\"quoted\" 'single' \\ back", "line1\nline2 </script>", "<%= partial(\"leaf\", {who: who + \"+\"}) %>",
 			"<%= partial(\"mid\", {who: \"m\"}) %>", "<%= for (x) in xs { %><%= partial(\"leaf\", {who: x}) %><% } %>"}
@@ -161,6 +162,62 @@ func init() {
 				e.Distinct(c.Tmpl)
 				if o.Class != "OK" || o.Out != t.want {
 					e.Violate("c17-block", fmt.Sprintf("%s rendered %q (%s %s), want %q", c.Tmpl, o.Out, o.Class, o.Msg, t.want), map[string]interface{}{"case": c, "observed": o})
+				}
+			}
+		}
+		// values whose printed form depends on the scope they are printed in (time.Time with
+		// TIME_FORMAT): the block / partial must print them as the inline source does in the
+		// equivalent scope.  Go-only values: decided by the two runs of the real engine.
+		tm := time.Date(2013, time.February, 3, 4, 5, 6, 0, time.UTC)
+		extra := map[string]interface{}{"tm": tm, "ptm": &tm}
+		tbodies := []string{"[<%= tm %>]", "[<%= ptm %>|<%= s %>]", "<% let TIME_FORMAT = \"2006\" %>[<%= tm %>]", "<%= for (x) in xs { %><%= tm %>,<% } %>", "<%= if (t) { %><%= tm %><% } %>"}
+		tdatas := []string{"", "{TIME_FORMAT: \"2006-02-Jan\"}", "{who: \"w\"}"}
+		for _, tb := range tbodies {
+			for _, outerFmt := range []string{"", "<% let TIME_FORMAT = \"Jan 2\" %>"} {
+				for _, td := range tdatas {
+					var ibinds []Bind
+					if strings.Contains(td, "TIME_FORMAT") {
+						ibinds = append(ibinds, Bind{"TIME_FORMAT", vStr("2006-02-Jan")})
+					}
+					if strings.Contains(td, "who") {
+						ibinds = append(ibinds, Bind{"who", vStr("w")})
+					}
+					// inline twin: the body in a scope where the data (if any) shadows the outer format
+					itm := outerFmt + tb
+					if len(ibinds) > 0 && strings.Contains(td, "TIME_FORMAT") {
+						itm = tb // the data's TIME_FORMAT shadows the outer let
+					}
+					in := runRenderExtra(RCase{Tmpl: itm, Binds: append(c17binds(), ibinds...)}, extra)
+					arg := ""
+					if td != "" {
+						arg = ", " + td
+					}
+					routes := map[string]string{
+						"contentFor": outerFmt + "<% contentFor(\"tb\") { %>" + tb + "<% } %><%= contentOf(\"tb\"" + arg + ") %>",
+						"default":    outerFmt + "<%= contentOf(\"missing\"" + arg + ") { %>" + tb + "<% } %>",
+						"partial":    outerFmt + "<%= partial(\"tp\"" + arg + ") %>",
+						"blk":        outerFmt + "<%= blk() { %>" + tb + "<% } %>",
+					}
+					if td != "" {
+						routes["blkctx"] = outerFmt + "<%= blkctx(" + td + ") { %>" + tb + "<% } %>"
+					}
+					for rn, rt := range routes {
+						want := in.Out
+						if rn == "blk" {
+							if td != "" {
+								continue
+							}
+							want = "[" + in.Out + "]"
+						}
+						c := RCase{Tmpl: rt, Binds: c17binds(), Parts: map[string]string{"tp": tb}}
+						o := runRenderExtra(c, extra)
+						e.rep.Evaluations++
+						e.Count("time-format/" + rn)
+						e.Distinct(rt)
+						if in.Class == "OK" && (o.Class != "OK" || o.Out != want) {
+							e.Violate("c17-scope-dependent-print", fmt.Sprintf("%s (%s) rendered %q (%s %s), the same source inline in the equivalent scope gives %q", rt, rn, o.Out, o.Class, o.Msg, want), map[string]interface{}{"tmpl": rt, "observed": o, "inline": itm})
+						}
+					}
 				}
 			}
 		}
